@@ -18,7 +18,7 @@ pub fn meta() -> Meta {
 correspond one-to-one and in order to W's entries minus the lifted OPT (owner, type, class, cache-flush, TTL), and when the RDLENGTH-delimited \
 slice decodes exactly under the type's reference schema the library's fields must equal that decode. Inputs: reference messages with one \
 record's RDLENGTH stretched by filler that looks like a complete record (or shrunk), for all 40 types; an OPT record at every position of additional sections of 1..7 \
-distinguishable records; header counts overstated over minimal entries; all cut/perturb cases of the C01 corpus; havoc. non-trivial = input >= 12 bytes announcing >= 1 entry on which W and the library were both run; distinct = hash of bytes",
+distinguishable records; header counts overstated over minimal entries; owner names that are pointers to a byte whose label covers the pointer itself and the record's fixed part (also with a decoy record header inside the following label); all cut/perturb cases of the C01 corpus; havoc. non-trivial = input >= 12 bytes announcing >= 1 entry on which W and the library were both run; distinct = hash of bytes",
         assumptions: &[
             "W accepts in-bounds forward pointers, the library may reject them (no demand)",
             "with two or more TYPE-41 records in the additional section only the alignment of non-OPT entries is compared",
@@ -261,6 +261,82 @@ pub fn run(ctx: &mut Ctx) {
                     ctx.add("opt_position_cases", 1);
                     check_bytes(ctx, "opt-position", idx, &b);
                 }
+            }
+        }
+    }
+    // an owner name that is a pointer to an earlier byte which, read as a label length, covers the pointer itself and the
+    // record's own fixed part (legal per RFC 1035: a pointer may lead anywhere before itself): the entry still occupies
+    // exactly two name bytes, and the entries after it must not be read from the middle of it
+    if ctx.family_active("ptr-straddle") {
+        let mut idx = 0u64;
+        for l in 13usize..=45 {
+            for variant in 0..4usize {
+                idx += 1;
+                if !ctx.take("ptr-straddle", idx) {
+                    continue;
+                }
+                let mut b = vec![0x51, (l as u8), 0x84, 0, 0, 0, 0, 3, 0, 0, 0, 0];
+                // record 1: opaque, its last RDATA byte is the label length the pointer will land on
+                let pad = 1 + (l + variant) % 5;
+                b.extend_from_slice(&[0, 0xFF, 0x01, 0, 1, 0, 0, 0, 7]);
+                b.extend_from_slice(&((pad + 1) as u16).to_be_bytes());
+                b.extend(std::iter::repeat(0xAA).take(pad));
+                let t = b.len();
+                b.push(l as u8);
+                // record 2: owner = pointer to t
+                b.push(0xC0 | (t >> 8) as u8);
+                b.push(t as u8);
+                b.extend_from_slice(&[0xFF, 0x02, 0, 1, 0, 1, 0, 0]);
+                // the label of length l covers pointer (2) + fixed part (10) + the first l - 12 RDATA bytes
+                let covered = l - 12;
+                let mut rd: Vec<u8> = (0..covered).map(|i| 0x61 + (i % 26) as u8).collect();
+                match variant {
+                    0 => rd.push(0),                                    // the name ends right there
+                    1 => rd.extend_from_slice(&[2, b'x', b'y', 0]),     // one more label, then the root
+                    2 => rd.extend_from_slice(&[1, b'z', 0, 0xEE, 0xEE]), // further RDATA after the name's end
+                    _ => rd.extend_from_slice(&[0xC0, 12 + 9 + 2]),       // continues with a pointer into record 1's RDATA (0xAA.. is not a valid label run: may be rejected by both)
+                }
+                b.extend_from_slice(&(rd.len() as u16).to_be_bytes());
+                b.extend_from_slice(&rd);
+                // record 3: an A record that must come out intact
+                b.extend_from_slice(&[1, b'e', 0, 0, 1, 0, 1, 0, 0, 0, 60, 0, 4, 10, 0, 0, 1]);
+                ctx.add("pointer_straddle_cases", 1);
+                check_bytes(ctx, "ptr-straddle", idx, &b);
+            }
+        }
+    }
+    // the same with a second label whose data holds what looks like the fixed part of a record: a parser that loses track of
+    // "I am behind a pointer" when the expansion passes the pointer's own offset resumes inside that label and returns
+    // the decoy as the second entry
+    if ctx.family_active("ptr-straddle-decoy") {
+        let mut idx = 0u64;
+        for c in 1usize..=24 {
+            for m2 in [c + 10, c + 11, c + 17, 40 + c % 7, 63] {
+                idx += 1;
+                if m2 < c + 10 || m2 > 63 || !ctx.take("ptr-straddle-decoy", idx) {
+                    continue;
+                }
+                let l = 12 + c;
+                let mut b = vec![0x52, (idx as u8), 0x84, 0, 0, 0, 0, 3, 0, 0, 0, 0];
+                b.extend_from_slice(&[0, 0xFF, 0x01, 0, 1, 0, 0, 0, 7, 0, 3, 0xAA, 0xAA]);
+                let t = b.len();
+                b.push(l as u8);
+                b.push(0xC0 | (t >> 8) as u8);
+                b.push(t as u8);
+                b.extend_from_slice(&[0xFF, 0x02, 0, 1, 0, 1, 0, 0]);
+                let mut rd: Vec<u8> = vec![0x62; c];
+                rd.push(m2 as u8);
+                let mut d: Vec<u8> = (0..m2).map(|i| 0x41 + (i % 26) as u8).collect();
+                // where such a parser resumes: offset m2 - 9 of the RDATA, that is offset m2 - 10 - c of this label's data
+                let at = m2 - 10 - c;
+                d[at..at + 10].copy_from_slice(&[0xFF, 0x03, 0, 1, 0, 0, 0, 5, 0, (c + 1) as u8]);
+                rd.extend_from_slice(&d);
+                rd.push(0);
+                b.extend_from_slice(&(rd.len() as u16).to_be_bytes());
+                b.extend_from_slice(&rd);
+                b.extend_from_slice(&[1, b'e', 0, 0, 1, 0, 1, 0, 0, 0, 60, 0, 4, 10, 0, 0, 1]);
+                ctx.add("pointer_straddle_decoy_cases", 1);
+                check_bytes(ctx, "ptr-straddle-decoy", idx, &b);
             }
         }
     }
